@@ -187,7 +187,8 @@ PROPS = {
                               'C03_insertion_that_is_not_retargeted_is_read_by_exactly_the_listed_operators',
                               'C03_last_instruction_of_a_nested_list_is_read_by_exactly_the_listed_operators',
                               'C03_horizontal_grouping_produces_nests',
-                              'C03_generator_invents_no_instruction', 'C03_mode_table', 'C03_policy_configs_have_a_mode',
+                              'C03_generator_invents_no_instruction', 'C03_mode_table', 'C03_policy_configs_have_a_mode', 'C03_policy_activations_are_per_tensor',
+                              'C03_generated_last_instruction_is_read_by_exactly_the_listed_operators',
                               'C03_unselected_op_untouched', 'C03_nonfloat_operand_never_quantized',
                               'C03_quantize_tensor_effect',
                               'C03_inserted_op_converts_between_neighbour_dtypes',
